@@ -807,21 +807,50 @@ func (c *Ctx) c09File(pm *pairModel) {
 			locks = append(locks, ops)
 		}
 		nCalls, held := 0, false
-		eng.EachInstr(vm, func(in ssa.Instruction) {
-			call, ok := in.(*ssa.Call)
-			if !ok {
-				return
+		var vfns []*ssa.Function
+		for g := range p.SyncReach(vm) {
+			if eng.FuncPkgPath(g) == eng.FuncPkgPath(vm) {
+				vfns = append(vfns, g)
 			}
-			if _, isParam := call.Call.Value.(*ssa.Parameter); !isParam {
-				return
-			}
-			nCalls++
-			for _, lo := range locks {
-				if !neverHeld(vm, in, lo) {
-					held = true
+		}
+		sortFuncs(vfns)
+		for _, g := range vfns {
+			g := g
+			eng.EachInstr(g, func(in ssa.Instruction) {
+				call, ok := in.(*ssa.Call)
+				if !ok {
+					return
 				}
-			}
-		})
+				prm, isParam := call.Call.Value.(*ssa.Parameter)
+				if !isParam {
+					return
+				}
+				if _, isFn := prm.Type().Underlying().(*types.Signature); !isFn {
+					return
+				}
+				// only the visitor itself: vm's parameter, or a helper's parameter bound to it
+				if av, isP := p.Actual(prm).(*ssa.Parameter); !isP || av.Parent() != vm {
+					return
+				}
+				nCalls++
+				for _, lo := range locks {
+					if !neverHeld(g, in, lo) {
+						held = true
+					}
+				}
+				// a helper: no lock may be held where the helper is called either
+				if g != vm {
+					for _, cs := range p.StaticCallSites(g) {
+						site := cs.Instr.(ssa.Instruction)
+						for _, lo := range locks {
+							if !neverHeld(site.Parent(), site, lo) {
+								held = true
+							}
+						}
+					}
+				}
+			})
+		}
 		cons := "visitor@" + shortFn(vm)
 		switch {
 		case nCalls == 0:
@@ -932,13 +961,18 @@ func (c *Ctx) c09Bucket() {
 		if fn == nil {
 			continue
 		}
-		eng.EachInstr(fn, func(in ssa.Instruction) {
-			if sl, ok := in.(*ssa.Slice); ok && isString(sl.X.Type()) {
-				if k, ok := eng.ConstInt(sl.High); ok && (dirK == -1 || k < dirK) {
-					dirK = k
-				}
+		for g := range p.SyncReach(fn) {
+			if eng.FuncPkgPath(g) != eng.FuncPkgPath(fn) {
+				continue
 			}
-		})
+			eng.EachInstr(g, func(in ssa.Instruction) {
+				if sl, ok := in.(*ssa.Slice); ok && isString(sl.X.Type()) && sl.High != nil {
+					if k, ok := eng.ConstInt(sl.High); ok && (dirK == -1 || k < dirK) {
+						dirK = k
+					}
+				}
+			})
+		}
 	}
 	cons := "bucket-covers-directory"
 	switch {
